@@ -10,6 +10,10 @@ pub struct HeaderVersion(pub u16);
 pub enum Kind { Cuckatoo, Cuckaroo, Cuckarood, Cuckaroom, Cuckarooz }
 pub struct Ctx { pub kind: Kind, pub edge_bits: u8, pub proof_size: usize }
 pub enum Error { Verification, Other }
+/// consensus constants a variant may name instead of the literal (values from core/src/consensus.rs)
+pub const SECOND_POW_EDGE_BITS: u8 = 29;
+pub const DEFAULT_MIN_EDGE_BITS: u8 = 31;
+pub const BASE_EDGE_BITS: u8 = 24;
 pub mod pow { pub use super::Error; }
 pub uninterp spec fn sp_chain_type() -> ChainTypes;
 pub uninterp spec fn sp_header_version(height: u64) -> HeaderVersion;
